@@ -26,7 +26,7 @@ claim("C15","muxsim","exploration",
  "Concurrent bind requests with seeded answer orders/kinds matched to the responder's view through unique hosts; second family forces flow-id re-use between binds and streams.",
  NOTE_E1, T_DST, "DESIGN.md §6 C15")
 claim("C08","muxsim","fault_enumeration",
- "One end cause (forged Close, cut of either/both directions in every mode, invalid frame, local handle drop) at a seeded scheduling round of a close/abort workload with pending calls of every kind; plus a crash-point sweep that fixes plan and schedule and moves the trigger over every scheduling round of that execution. Judged: every pending call at an endpoint whose connection ended has resolved at quiescence, the task returned; after a local drop every frame queued before it is on the wire before Close. Further families: accept backlog full at the failing endpoint; keepalive expiry as the end cause (silent link, also around an orderly end); the task future dropped (AbortTask). Second part (loom, same command): a request made on one thread while the task's future is dropped on another, every interleaving up to the preemption bound.",
+ "One end cause (forged Close, cut of either/both directions in every mode, invalid frame, local handle drop) at a seeded scheduling round of a close/abort workload with pending calls of every kind; plus a crash-point sweep that fixes plan and schedule and moves the trigger over every scheduling round of that execution. Judged: every pending call at an endpoint whose connection ended has resolved at quiescence, the task returned; after a local drop every frame queued before it is on the wire before Close. Further families: accept backlog full at the failing endpoint; keepalive expiry as the end cause (silent link, also around an orderly end); the task future dropped (AbortTask); a handle dropped with a backlog on a slow link (one side or both), also with the dropping endpoint's Sink failing during the flush; the peer's Close followed by a transport that goes silent before it ends (what a WebSocket client waits for). Second part (loom, same command): a request made on one thread while the task's future is dropped on another, every interleaving up to the preemption bound.",
  NOTE_E1 + " A peer endpoint whose application never accepts streams (and so wedges its own receive loop) is outside the premise: both applications keep accepting.", T_DST + "; crash-point sweep over scheduling rounds", "DESIGN.md §6 C08")
 claim("C10","muxsim","fault_enumeration",
  "All single frames and all ordered pairs over 12 frame kinds x 8 flow-id classes (every slot state) are enumerated against a real endpoint under seeded schedules, random longer sequences beyond, optional invalid message at the end; Reset discipline per flow id against a reference model of what PROTOCOL.md fixes, bystander stream models, liveness probe.",
